@@ -189,7 +189,8 @@ func shapeDoc(f M, did string) *didtypes.DIDDocument {
 		id = other
 	}
 	key := didKeys["k1"]
-	suffix := map[string]string{"s1": "k", "s128": rep("k", 128), "s0": "", "s129": rep("k", 129), "space": "a b", "tab": "a\tb"}
+	suffix := map[string]string{"s1": "k", "s128": rep("k", 128), "s0": "", "s129": rep("k", 129), "space": "a b", "tab": "a\tb", "newline": "a\nb",
+		"hash2": "k#j", "hash2space": "k#a b", "hash2long": "k#" + rep("x", 200), "hash2s128": "k#" + rep("x", 126)}
 	vmid := id + "#k"
 	switch l := str(f, "vmid"); l {
 	case "foreign":
